@@ -243,6 +243,21 @@ def run(ctx):
     n = tc[3][1] + (1 if tc[1] == 'Gt' else 0)
     t = body.blocks[tb]['term']
     true_blk = t['otherwise']
+    # nothing but "the game has no result" and the end of the replay may stand between the caller and the fifty-move test: a
+    # further early `return false` (on the size of the repetition list, say) refuses claims the rule grants
+    from . import c10 as _c10
+    for g in guards(s, tb):
+        if g['cond'] is None:
+            continue
+        cn_ = norm(g['cond'])
+        if _c10.game_open(g['cond'], g['vals']):
+            continue
+        if cn_[0] == 'discr' and cn_[1][0] == 'call' and str(cn_[1][1]).endswith('::next'):
+            continue            # the replay loop ran to exhaustion
+        if cn_[0] == 'discr' and any(isinstance(x, tuple) and x and x[0] == 'call' and str(x[1]).endswith('::last') for x in walk(cn_)):
+            continue            # `match self.moves.last()` forms of the result gate are judged by C11.R6
+        ctx.violation('C11.R2', KEY + ':fifty-gated', 'the fifty-move test is reached only when `%s` is %s: claims the rule grants are refused '
+                      'on the other branch' % (sh(cn_, 120), g['vals']), where(body, g.get('line') or t.get('line')))
     # the true edge returns true
     ret_true = False
     for st in s.stores:
